@@ -6,7 +6,7 @@ import (
 	"time"
 
 	"github.com/rulego/streamsql/functions"
-	"github.com/rulego/streamsql/utils/simrt"
+	"verif.local/simrt"
 )
 
 // C18 — lifecycle operations are safe under any interleaving and Stop is a barrier
